@@ -41,6 +41,7 @@ def setup(ctx):
         "file *names* (not contents) appearing in error texts are not counted as content leaks",
     ]
     ctx.require("monitor", "special_file_requests", 10)
+    ctx.require("monitor", "changing_tree_responses", 300)
     ctx.require("monitor", "responses", 3000)
     ctx.require("monitor", "success_bodies_checked", 500)
     ctx.require("monitor", "attacks_at_outside", 500)
@@ -270,6 +271,133 @@ def run_tree(ctx, rng, idx):
         shutil.rmtree(base, ignore_errors=True)
 
 
+def run_changing_tree(ctx, rng, idx):
+    """A document root that changes while the server runs (a deploy, an rsync, a checkout): entries that were
+    served are replaced by links that lead outside, and back.  Every response is judged against the tree as it is
+    when the request is made - what an earlier request saw is no licence."""
+    from nauyaca.server.handler import StaticFileHandler
+
+    base = tempfile.mkdtemp(prefix="vf-c02-chg-")
+    try:
+        root = os.path.join(base, "root")
+        outside = os.path.join(base, "outside")
+        os.makedirs(os.path.join(root, "docs"))
+        os.makedirs(os.path.join(root, "deep", "a", "b"))
+        os.makedirs(os.path.join(outside, "dir", "b"))
+        serial = [0]
+
+        def write(path, where):
+            serial[0] += 1
+            tok = f"{'OUTSIDETOKEN' if where == 'out' else 'INSIDETOKEN'}{idx}x{serial[0]}"
+            with open(path, "w") as f:
+                f.write(f"{tok}\n")
+            return tok
+
+        out_tokens = [write(os.path.join(outside, "secret.gmi"), "out"), write(os.path.join(outside, "dir", "index.gmi"), "out"), write(os.path.join(outside, "dir", "b", "file.txt"), "out"),
+                      write(os.path.join(outside, "dir", "file.txt"), "out")]
+        current = {}
+        entries = {"/page.gmi": os.path.join(root, "page.gmi"), "/docs/index.gmi": os.path.join(root, "docs", "index.gmi"), "/deep/a/b/file.txt": os.path.join(root, "deep", "a", "b", "file.txt")}
+        for url, pth in entries.items():
+            current[url] = write(pth, "in")
+        # how each URL is asked for: itself, and (for an index file) its directory
+        asks = {"/page.gmi": ["/page.gmi", "/./page.gmi", "/docs/../page.gmi"], "/docs/index.gmi": ["/docs/index.gmi", "/docs/", "/docs"], "/deep/a/b/file.txt": ["/deep/a/b/file.txt", "/deep/a/b/../b/file.txt"]}
+        handlers = {listing: StaticFileHandler(root, enable_directory_listing=listing) for listing in (False, True)}
+
+        def remove(pth):
+            if os.path.islink(pth) or os.path.isfile(pth):
+                os.unlink(pth)
+            elif os.path.isdir(pth):
+                shutil.rmtree(pth)
+
+        def restore_parents(pth):
+            d = os.path.dirname(pth)
+            for anc in (os.path.join(root, "docs"), os.path.join(root, "deep"), os.path.join(root, "deep", "a"), os.path.join(root, "deep", "a", "b")):
+                if (d + "/").startswith(anc + "/") and (os.path.islink(anc) or not os.path.isdir(anc)):
+                    remove(anc)
+                    os.makedirs(anc)
+
+        def mutate(kind, url):
+            pth = entries[url]
+            if kind.startswith("entry->"):
+                restore_parents(pth)
+            if kind == "entry->outside-link":
+                remove(pth)
+                os.symlink(os.path.join(outside, "secret.gmi"), pth)
+                current[url] = None
+            elif kind == "entry->regular-file":
+                remove(pth)
+                current[url] = write(pth, "in")
+            elif kind == "parent->outside-link":
+                d = os.path.dirname(pth)
+                if d == root:
+                    return False
+                remove(d)
+                os.symlink(os.path.join(outside, "dir") if os.path.basename(d) != "b" else os.path.join(outside, "dir", "b"), d)
+                current[url] = None
+            elif kind == "entry->inside-link":
+                remove(pth)
+                other = os.path.join(root, "other-" + os.path.basename(pth))
+                current[url] = write(other, "in")
+                os.symlink(other, pth)
+            return True
+
+        kinds = ["entry->outside-link", "entry->regular-file", "parent->outside-link", "entry->inside-link", "entry->regular-file"]
+        steps = []
+        for url in entries:
+            steps += [("request", url), ("entry->outside-link", url), ("request", url), ("entry->regular-file", url), ("request", url), ("parent->outside-link", url), ("request", url), ("entry->regular-file", url), ("request", url)]
+        for _ in range(ctx.pick(30, 120)):
+            url = rng.choice(list(entries))
+            steps += [(rng.choice(kinds), url), ("request", url)]
+        history = []
+        for op, url in steps:
+            if op != "request":
+                if mutate(op, url):
+                    history.append((op, url))
+                continue
+            for listing, h in handlers.items():
+                for path in asks[url]:
+                    for fresh in (False, True):
+                        hh = StaticFileHandler(root, enable_directory_listing=listing) if fresh else h
+                        req = make_request(path)
+                        try:
+                            resp = hh.handle(req)
+                            status, meta_s, body = resp.status, resp.meta, resp.body
+                        except Exception as e:  # noqa: BLE001
+                            status, meta_s, body = 40, f"Server error: {e}", None
+                        text = body.decode("utf-8", "replace") if isinstance(body, bytes) else (body or "")
+                        seen = f"{meta_s}\n{text}"
+                        ctx.count("monitor", "responses")
+                        ctx.count("monitor", "changing_tree_responses")
+                        real = os.path.realpath(entries[url])
+                        is_out = not inside(real, os.path.realpath(root))
+                        if is_out:
+                            ctx.count("monitor", "attacks_at_outside")
+                        wit = {"root": root, "history": history[-6:], "path": path, "listing": listing, "handler": "new instance" if fresh else "the one that served earlier requests", "entry_now_resolves_to": real,
+                               "status": status, "meta": meta_s, "body": text[:200], "via": "L0-changing-tree"}
+                        now = None
+                        if not is_out and os.path.isfile(real):
+                            with open(real) as f:
+                                now = f.read()
+                        leaked = [t for t in re.findall(r"OUTSIDETOKEN\w+", seen)]
+                        verdict = "ok"
+                        if leaked:
+                            verdict = "escape"
+                            ctx.violation("escape-file:how=entry-replaced-after-being-served", f"response carries content from outside the root ({real}) after the entry was replaced by a link", wit)
+                        elif 20 <= status <= 29 and not text.startswith("# Index of"):
+                            ctx.count("monitor", "success_bodies_checked")
+                            if now is None or text != now:
+                                verdict = "stale"
+                                ctx.violation("altered-content:how=entry-replaced-after-being-served", "success body is not the content the entry has now", dict(wit, expected=now))
+                        elif current[url] is not None and os.path.realpath(entries[url]) == os.path.join(os.path.realpath(root), url.lstrip("/")) and path == asks[url][0]:
+                            ctx.count("monitor", "availability_checked")
+                            if status != 20:
+                                verdict = "unreachable"
+                                ctx.violation("unreachable-literal:how=entry-restored", f"regular in-root file was not served (status {status}) after the entry was restored", wit)
+                        ctx.case(("changing-tree", history[-1][0] if history else "initial", url, path == asks[url][0], listing, fresh, status, verdict), True, sample=wit)
+    finally:
+        shutil.rmtree(base, ignore_errors=True)
+
+
 def run_live(ctx):
     from nauyaca.protocol.response import GeminiResponse
 
@@ -401,6 +529,9 @@ def run(ctx):
     n = max(1, ctx.pick(40, 4000) // ctx.nshards)
     for i in range(n):
         run_tree(ctx, rng, i + ctx.shard)
+    if ctx.mine(2) or ctx.nshards == 1:
+        for j in range(ctx.pick(2, 12)):
+            run_changing_tree(ctx, rng, j)
     if ctx.shard == 0:
         run_live(ctx)
     if ctx.shard == 1 or ctx.nshards == 1:
